@@ -46,7 +46,7 @@ describe(
         "perturbations; a partial Jacobian is placed in the columns of the differentiated components; the step "
         "flips at the upper bounds, normalised iff the approximator works on normalised inputs."
     ),
-    decided=["16.1 component vs perturbation index spaces", "16.2 serial/parallel twins", "16.3 placement of a partial Jacobian", "16.4 step flip at upper bounds", "16.4 forward/backward points compared with the upper/lower bounds (normalised iff inputs are)", "16.5 flat indices of check_jacobian", "16.6 perturbed points evaluated under zero cache tolerance"],
+    decided=["16.1 component vs perturbation index spaces", "16.2 serial/parallel twins", "16.3 placement of a partial Jacobian", "16.4 step flip at upper bounds", "16.4 forward/backward points compared with the upper/lower bounds (normalised iff inputs are)", "16.5 flat indices of check_jacobian", "16.6 perturbed points evaluated under zero cache tolerance", "16.6 zeroing depends on the existence of the cache only"],
     not_decided=["error order of the approximation", "rounding error", "safety with respect to lower bounds"],
 )
 
